@@ -190,6 +190,10 @@ func c30VoteKey(e reflect.Value) string {
 	snd := e.FieldByName("Sender").Interface().(basics.Address)
 	cred := e.FieldByName("Cred").Interface().(committee.UnauthenticatedCredential)
 	sig := e.FieldByName("Sig").Interface().(crypto.OneTimeSignature)
+	// identity of a vote = what authenticates it. PKSigOld is a deprecated field that
+	// OneTimeSignatureVerifier.Verify does not look at: a certificate that differs from the genuine one
+	// only there (seen with the bit-flip class) still consists of genuine votes.
+	sig.PKSigOld = [64]byte{}
 	return fmt.Sprintf("%x|%x|%x", snd[:], cred.Proof[:], protocol.Encode(&sig))
 }
 
@@ -272,7 +276,25 @@ func (ch *c30Chain) refCertOK(r basics.Round, cert *agreement.Certificate) (bool
 		e := votes.Index(i)
 		w, ok := ch.weight[r][c30VoteKey(e)]
 		if !ok {
-			return false, "contains a vote that is not one of the genuine cert-step votes of this round"
+			why := "contains a vote that is not one of the genuine cert-step votes of this round"
+			// say what differs from the genuine vote of the same sender (for triage)
+			hv := c30Votes(&hc)
+			for k := 0; k < hv.Len(); k++ {
+				g := hv.Index(k)
+				if g.FieldByName("Sender").Interface() != e.FieldByName("Sender").Interface() {
+					continue
+				}
+				if g.FieldByName("Cred").Interface() != e.FieldByName("Cred").Interface() {
+					why += "; credential differs"
+				}
+				gs, es := g.FieldByName("Sig"), e.FieldByName("Sig")
+				for f := 0; f < gs.NumField(); f++ {
+					if gs.Type().Field(f).IsExported() && gs.Field(f).Interface() != es.Field(f).Interface() {
+						why += "; signature field " + gs.Type().Field(f).Name + " differs"
+					}
+				}
+			}
+			return false, why
 		}
 		snd := e.FieldByName("Sender").Interface().(basics.Address)
 		if seen[snd] {
